@@ -121,7 +121,7 @@ func (e *Engine) builtin(s *State, f *Frame, name string, args []Value, site ssa
 			return e.mkString("")
 		}
 		ba := getPath(s.obj(p.Obj).Val, p.Path).(*ByteArr)
-		return &SliceV{IsStr: true, Str: ba, Off: p.BIdx, Len: n, Cap: n}
+		return &SliceV{IsStr: true, Str: ba, Off: p.BIdx, Len: n, Cap: n, Alias: &Pointer{Obj: p.Obj, Gen: p.Gen}}
 	case "Slice":
 		p := args[0].(*Pointer)
 		n := e.toInt64(args[1].(*Term), site.Common().Args[1].Type())
@@ -197,7 +197,7 @@ func (e *Engine) appendSlice(s *State, a, b *SliceV, ty types.Type) Value {
 		return a
 	}
 	if isByteType(et) && !(e.symLen || s.symMem) && !b.Len.IsConst() {
-		b = &SliceV{Base: b.Base, Str: b.Str, IsStr: b.IsStr, Off: b.Off, Cap: b.Cap, Len: c.BV(e.concretize(s, b.Len, "append length"), 64)}
+		b = &SliceV{Base: b.Base, Str: b.Str, IsStr: b.IsStr, Alias: b.Alias, Off: b.Off, Cap: b.Cap, Len: c.BV(e.concretize(s, b.Len, "append length"), 64)}
 	}
 	need := c.Add(a.Len, b.Len)
 	if isByteType(et) {
